@@ -134,7 +134,7 @@ SELECTORS = ["selectlt", "selectle", "selectgt", "selectge", "selecteq", "select
 
 @st.composite
 def consumer_case(draw, tier):
-    p = draw(gen.pool(gen.value, 3, 6))
+    p = draw(gen.twinned_pool(gen.value, 3, 6, seq_twins=True))
     cell = st.sampled_from(p)
     nf = draw(st.sampled_from([1, 2, 3]))
     hdr = ["a", "b", "c"][:nf]
